@@ -821,6 +821,37 @@ func (p *Parser) parsePrimaryExpression() (ast.Expression, error) {
 		return expr, nil
 	}
 
+	if p.isType(models.TokenTypeMinus) || p.isType(models.TokenTypePlus) {
+		// Handle unary minus / plus (e.g. -1, -amount, +x). The operand is parsed
+		// with its casts and JSON accessors so that -a::int means -(a::int).
+		op := ast.Minus
+		if p.isType(models.TokenTypePlus) {
+			op = ast.Plus
+		}
+		p.advance() // Consume sign
+
+		// Signs can be chained (- - 1); bound the recursion like parseExpression does
+		p.depth++
+		defer func() { p.depth-- }()
+		if p.depth > MaxRecursionDepth {
+			return nil, goerrors.RecursionDepthLimitError(
+				p.depth,
+				MaxRecursionDepth,
+				models.Location{Line: 0, Column: 0},
+				"",
+			)
+		}
+
+		operand, err := p.parseJSONExpression()
+		if err != nil {
+			return nil, err
+		}
+		return &ast.UnaryExpression{
+			Operator: op,
+			Expr:     operand,
+		}, nil
+	}
+
 	if p.isType(models.TokenTypeExists) {
 		// Handle EXISTS (subquery)
 		p.advance() // Consume EXISTS
